@@ -147,7 +147,9 @@ def record_random(args):
         for i in range(1, 9):
             if f'sigfield{i}' not in sf and r.random() < 0.4:
                 sf[f'sigfield{i}'] = r.randbytes(r.choice([0, 3, 32]))
-        body = r.choice([b'', op('TRUE') + op('VERIFY'), push(b'ab') + op('SIZE') + op('POP0')])
+        body = r.choice([b'', op('TRUE') + op('VERIFY'), push(b'ab') + op('SIZE') + op('POP0'),
+                         # committed / surrogate scripts whose size sits on a push-size boundary (witnesses push the script)
+                         push(r.randbytes(r.choice([244, 245, 246, 247, 248, 249, 250]))) + op('POP0')])
         mk = lambda m, v: push(bytes([m])) + op('POP0') + body + (op('TRUE') if v else op('FALSE'))
         scr = {'1': mk(1, True), '2': mk(2, True), '3': mk(3, False)}
         if r.random() < 0.3:
